@@ -65,6 +65,10 @@ def float_decorator(size, id_):
         def check(value):
             if not isinstance(value, (float, int, long)):
                 raise ProphyError("not a float")
+            try:
+                struct.pack('<' + id_, value)
+            except (OverflowError, struct.error):
+                raise ProphyError("value: {} out of {}B float's range".format(value, size))
             return value
 
         cls._check = check
